@@ -245,7 +245,7 @@ def one(rec, hub, seed, tier, i):
                     xr.to_df(index=False)
             except Exception:
                 pass
-        for kw in (dict(), dict(index=False), dict(sparse=True), dict(index=False, sparse=True)) + tuple(dict(dim_to_columns=(s[0] if rng.random() < 0.5 else s[1]), index=bool(rng.integers(0, 2))) for s in spec if len(s[2]) > 1 and (s[3] is not None or isinstance(s[2][0], str))):
+        for kw in (dict(), dict(index=False), dict(sparse=True), dict(index=False, sparse=True)) + tuple(dict(dim_to_columns=(s[0] if rng.random() < 0.5 else s[1]), index=bool(rng.integers(0, 2)), **({"sparse": True} if rng.random() < 0.4 else {})) for s in spec if len(s[2]) > 1 and (s[3] is not None or isinstance(s[2][0], str))):
             rec.event(MR, sig=f"rt|{k}|{sorted(kw.items())}|{types}", cls=f"roundtrip|{'wide' if 'dim_to_columns' in kw else 'long'}")
             try:
                 d2 = x.to_df(**kw)
@@ -255,6 +255,12 @@ def one(rec, hub, seed, tier, i):
                 z = fd.FlodymArray.from_df(dims=dims, df=d2, allow_missing_values=bool(kw.get("sparse")))
             except Exception as e:
                 mech = "roundtrip:from_df-rejects-to_df-output" + (":1-dimensional-wide" if k == 1 and "dim_to_columns" in kw else "")
+                if kw.get("sparse") and "dim_to_columns" in kw:
+                    # structural predicate of finding F25: an item of the spread dimension has no non-zero entry, so its column is absent
+                    cd = [j for j, s_ in enumerate(spec) if kw["dim_to_columns"] in (s_[0], s_[1])][0]
+                    other_axes = tuple(a for a in range(values.ndim) if a != cd)
+                    if np.any(np.all(values == 0, axis=other_axes)) and isinstance(e, ValueError):
+                        mech = "roundtrip:sparse-wide-export-lacks-the-column-of-an-all-zero-item"
                 rec.violation(MR, mech, {"layout": kw, "exc": repr(e)[:300], "dims": [(s[0], len(s[2])) for s in spec]})
                 continue
             if not np.array_equal(z.values, values):
